@@ -2,6 +2,7 @@
 import re
 
 CONFIG = {
+    "manifest": {'level_text': 'Coq theorems (closed under the global context), generic in the element payload: the recursive collection of Cell::get_* / Reference::get_* with apply_repetitions = true equals the denotation of the cell (own shapes plus, recursively, every referenced cell mapped by the reference placement and each repetition offset) as a multiset, for any acyclic environment with the depth fuel bound proved; depth limits cut the denotation at exactly that level; tag filters are list filters; flatten preserves the denotation and leaves no cell references; a two-level hierarchy equals explicit composition of the affine maps. The model runs, extracted, against every get_* variant before and after flatten on generated hierarchies with all element kinds and repetition kinds; copies are checked for independence by mutation.', 'level_note': "With apply_repetitions = false the repetition vectors of collected elements are not transformed by the reference (get_unapplied_refuted, flatten_unapplied_refuted): recorded as a known finding. 'Copies are independent of their source' is an aliasing statement checked at run time only. Outlines of paths are taken from to_polygons in the path's home cell (C07/C08 decide them).", 'technique': 'Coq proofs of the hierarchy-collection recursion against a denotational semantics + extracted-model differential run'},
     "prop_file": "Properties_C06",
     "units": [
         {"extract_file": "Extract_C06", "extracted": ["c06_hierarchy"], "driver": "c06_hierarchy",
